@@ -111,7 +111,7 @@ Definition replay_exempt (rule : option rule) (k : str) : bool :=
      end.
 
 Definition hdr_multi_or_delims (h : hdrs) : bool :=
-  existsb (fun kv => negb (Nat.eqb (length (snd kv)) 1) || has_any (fst kv) (58%N :: meta_delims)
+  existsb (fun kv => has_any (fst kv) (58%N :: meta_delims)
                      || existsb (fun v => has_any v meta_delims) (snd kv)) h.
 
 (* ---- C18: where a redirect walk must end, read off the scripted origins alone ---- *)
@@ -203,7 +203,7 @@ Definition judge (p : str) (sfx : option str) (rules : list rule) (expires : lis
       if from_cache && is_get && plain then
         match ent with
         | Some e =>
-          let kf := (if hdr_multi_or_delims (se_hdrs e) then "F6-multi-valued" else "")%string in
+          let kf := (if hdr_multi_or_delims (se_hdrs e) then "F6-delimiters" else "")%string in
           if negb (cobs_status o =? se_status e) then verdict false "a hit replays a different status than was stored"
           else if negb (str_eqb (cobs_body o) (se_body e)) then verdict false "a hit replays a different body than was stored"
           else if negb (forallb (fun kv => replay_exempt rule (fst kv)
